@@ -66,6 +66,7 @@ type world struct {
 	regs      []*bubble.Logging // every instrumented resource that must be closed exactly once when the started run ends
 	rParking  int               // how many of them park the Run goroutine in Close
 	nestedCtx []*distsys.MPCalContext
+	nestedEnd *bubble.Thread // the nested archetype parked at its end label (self-ending nested configurations)
 
 	fault      *bubble.Faulty
 	faultFired string // which failing construct really executed ("assert", "errorlabel")
@@ -283,8 +284,19 @@ func build(cfg Config, s *bubble.Sched) *world {
 			ext = s.External("N") // the inner resource's Close is a scheduling point only when the outer context closes the nested one
 		}
 		ends, after := "", 0
+		var nestedOpts []distsys.MPCalContextConfigFn
 		if cfg.Nested != "" {
 			ends, after = cfg.Nested[:len(cfg.Nested)-1], int(cfg.Nested[len(cfg.Nested)-1]-'0')
+			if s != nil {
+				// The nested archetype's last step (its end label) is a scheduling point of its own, granted as
+				// soon as it is reached (see execute): it ends at a quiescent point, after its last acknowledgement
+				// has been consumed.  Without this the acknowledgement of the outer Commit races the close of
+				// ctxHasStopped inside nestedArchetype.performRequest (a finding of its own, not explorable here).
+				w.nestedEnd = s.External("Nend")
+				g := bubble.NewGate(w.nestedEnd)
+				g.ParkIf = func(pc string) bool { return pc == "Reg.end" }
+				nestedOpts = append(nestedOpts, distsys.SetFairnessCounter(g))
+			}
 		}
 		nested := resources.NewNested(func(sendCh chan<- tla.Value, receiveCh <-chan tla.Value) []*distsys.MPCalContext {
 			store := &bubble.Logging{Inner: local(4), Name: "nested.store", Who: "N", Log: w.log, ClosePark: ext}
@@ -292,7 +304,8 @@ func build(cfg Config, s *bubble.Sched) *world {
 			nctx := distsys.NewMPCalContext(tla.MakeString("reg"), registerArchetype(ends, after),
 				distsys.EnsureArchetypeRefParam("in", resources.NewInputChan(receiveCh)),
 				distsys.EnsureArchetypeRefParam("out", resources.NewOutputChan(sendCh)),
-				distsys.EnsureArchetypeRefParam("store", store))
+				distsys.EnsureArchetypeRefParam("store", store),
+				distsys.EnsureMPCalContextConfigs(nestedOpts...))
 			w.nestedCtx = append(w.nestedCtx, nctx)
 			return []*distsys.MPCalContext{nctx}
 		})
